@@ -10,9 +10,10 @@ link diagram over ℤ with Frobenius parameters (h, t):
 It mirrors `yui-khovanov/src/kh/internal/v1/cube.rs` + `kh/gen.rs` + `KhComplex::deg_shift_for`
 (the straightforward definition the optimised engine v2 must agree with), not the engine itself.
 Homology is read off from Smith invariants of the integer differentials (unit-pivot elimination on
-sparse rows, then dense SNF of the small remainder).  The linear algebra part is fast array code and is
-NOT verified (trusted base; cross-checked against the library on every case by construction of the
-differential test, and `d∘d = 0` of the reference complex is re-checked per instance).
+sparse rows, then dense SNF of the small remainder).  The linear algebra part is fast array code; it is TOTAL
+(structural recursion on fuel) and VERIFIED in `Props/KhSnf.lean` (`smithInvariants` returns a Smith normal form of
+the matrix of its well-formed rows, `homologyOf` reports the cells of `Proofs/C03Uct`); `d∘d = 0` of the reference
+complex is a theorem (`Props/C01Sq.lean`) and is still re-checked per instance.
 Over ℚ and 𝔽_p the ranks follow from the same integer invariants (h, t given by integer
 representatives): rank_ℚ = #nonzero factors, rank_{𝔽p} = #factors not divisible by p.
 -/
@@ -254,7 +255,7 @@ def Cube.qDeg (c : Cube) (q0 : Int) (g : Gen) : Int :=
   let xs := popcount g.mask r
   q0 + (-2 : Int) * xs + r + popcount g.s c.n
 
-/-! ### integer linear algebra (fast, unverified) -/
+/-! ### integer linear algebra (fast; total definitions; specification proved in `Props/KhSnf.lean`) -/
 
 abbrev Row := Array (Nat × Int)       -- sorted by column, no zero entries
 
@@ -298,58 +299,91 @@ def normalizeRow (r : Array (Nat × Int)) : Row := Id.run do
     else if v != 0 then out := out.push (c, v)
   return out
 
-/-- dense Smith diagonal (absolute values of the non-zero diagonal entries, not yet a divisibility chain) -/
-partial def denseDiag (a0 : Array (Array Int)) : Array Int := Id.run do
-  let m := a0.size
-  if m == 0 then return #[]
-  let n := a0[0]!.size
+/-- pivot search of `denseDiag`: a non-zero entry of least absolute value in the block `[t,m) × [t,n)`, as
+`(absolute value, row, column)` (the first one in row-major order among those of least absolute value) -/
+def findPivot (a : Array (Array Int)) (t m n : Nat) : Option (Nat × Nat × Nat) := Id.run do
+  let mut best : Option (Nat × Nat × Nat) := none
+  for i in [t:m] do
+    for j in [t:n] do
+      let v := (a[i]![j]!).natAbs
+      if v != 0 then
+        match best with
+        | some (b, _, _) => if v < b then best := some (v, i, j)
+        | none => best := some (v, i, j)
+  return best
+
+/-- one round of `denseDiag` at level `t` with the pivot at `(pi, pj)`: move it to `(t,t)`, clear column `t` below and
+row `t` to the right by Euclidean division. Returns the new matrix, the pivot value, and whether the round was clean
+(no remainder appeared, column `t` below and row `t` right are zero) -/
+def pivotStep (a0 : Array (Array Int)) (t m n pi pj : Nat) : Array (Array Int) × Int × Bool := Id.run do
   let mut a := a0
-  let mut diag : Array Int := #[]
-  let mut t := 0
-  while t < m && t < n do
-    -- pivot: non-zero entry of least absolute value in the remaining block
-    let mut best : Option (Nat × Nat × Nat) := none
-    for i in [t:m] do
-      for j in [t:n] do
-        let v := (a[i]![j]!).natAbs
-        if v != 0 then
-          match best with
-          | some (b, _, _) => if v < b then best := some (v, i, j)
-          | none => best := some (v, i, j)
-    match best with
-    | none => t := m
-    | some (_, pi, pj) =>
-      -- move to (t,t)
-      if pi != t then
-        let r1 := a[pi]!; let r2 := a[t]!
-        a := (a.set! pi r2).set! t r1
-      if pj != t then
-        a := a.map (fun r => (r.set! pj r[t]!).set! t r[pj]!)
-      -- clear column t and row t; if a remainder appears, the pivot search restarts with a smaller entry
-      let mut clean := true
-      let pv := a[t]![t]!
-      for i in [t+1:m] do
-        let v := a[i]![t]!
-        if v != 0 then
-          let q := v / pv     -- Int division (floor-ish); remainder handled by restart
-          let rt := a[t]!
-          a := a.set! i ((a[i]!).mapIdx (fun j x => x - q * rt[j]!))
-          if a[i]![t]! != 0 then clean := false
-      if clean then
-        for j in [t+1:n] do
-          let v := a[t]![j]!
-          if v != 0 then
-            let q := v / pv
-            a := a.map (fun r => r.set! j (r[j]! - q * r[t]!))
-            if a[t]![j]! != 0 then clean := false
-      if clean then
-        -- column t below and row t right are zero now?
-        let colZero := (List.range (m - t - 1)).all (fun d => a[t + 1 + d]![t]! == 0)
-        let rowZero := (List.range (n - t - 1)).all (fun d => a[t]![t + 1 + d]! == 0)
-        if colZero && rowZero then
-          diag := diag.push (Int.ofNat pv.natAbs)
-          t := t + 1
-  return diag
+  -- move to (t,t)
+  if pi != t then
+    let r1 := a[pi]!; let r2 := a[t]!
+    a := (a.set! pi r2).set! t r1
+  if pj != t then
+    a := a.map (fun r => (r.set! pj r[t]!).set! t r[pj]!)
+  -- clear column t and row t; if a remainder appears, the pivot search restarts with a smaller entry
+  let mut clean := true
+  let pv := a[t]![t]!
+  for i in [t+1:m] do
+    let v := a[i]![t]!
+    if v != 0 then
+      let q := v / pv     -- Int division (floor-ish); remainder handled by restart
+      let rt := a[t]!
+      a := a.set! i ((a[i]!).mapIdx (fun j x => x - q * rt[j]!))
+      if a[i]![t]! != 0 then clean := false
+  if clean then
+    for j in [t+1:n] do
+      let v := a[t]![j]!
+      if v != 0 then
+        let q := v / pv
+        a := a.map (fun r => r.set! j (r[j]! - q * r[t]!))
+        if a[t]![j]! != 0 then clean := false
+  if clean then
+    -- column t below and row t right are zero now?
+    let colZero := (List.range (m - t - 1)).all (fun d => a[t + 1 + d]![t]! == 0)
+    let rowZero := (List.range (n - t - 1)).all (fun d => a[t]![t + 1 + d]! == 0)
+    return (a, pv, colZero && rowZero)
+  return (a, pv, false)
+
+/-- the rounds of `denseDiag` at one level `t`, starting with the pivot `piv`: repeat until a round is clean (result:
+the cleaned matrix and the absolute value of the last pivot) or the block is zero (`none`). Every unclean round leaves
+a non-zero remainder of smaller absolute value than the pivot, so the pivot values strictly decrease and `fuel` = the
+absolute value of the first pivot is never exhausted (`Proofs/KhSnf*`). -/
+def levelLoop : Nat → Array (Array Int) → Nat → Nat → Nat → Nat × Nat × Nat → Array (Array Int) × Option Int
+  | 0, a, _, _, _, _ => (a, none)
+  | fuel + 1, a, t, m, n, (_, pi, pj) =>
+    let r := pivotStep a t m n pi pj
+    if r.2.2 then (r.1, some (Int.ofNat r.2.1.natAbs))
+    else
+      match findPivot r.1 t m n with
+      | none => (r.1, none)
+      | some p' => levelLoop fuel r.1 t m n p'
+
+/-- the levels `t, t+1, …` of `denseDiag` (`fuel` ≥ the number of levels left) -/
+def denseLoop : Nat → Array (Array Int) → Nat → Nat → Nat → Array Int → Array Int
+  | 0, _, _, _, _, diag => diag
+  | fuel + 1, a, t, m, n, diag =>
+    if t < m && t < n then
+      -- pivot: non-zero entry of least absolute value in the remaining block
+      match findPivot a t m n with
+      | none => diag
+      | some p =>
+        match levelLoop p.1 a t m n p with
+        | (a', some d) => denseLoop fuel a' (t + 1) m n (diag.push d)
+        | (_, none) => diag
+    else diag
+
+/-- dense Smith diagonal (absolute values of the non-zero diagonal entries, not yet a divisibility chain).
+TOTAL: structural recursion on fuel (`min m n + 1` levels; at each level at most |first pivot| rounds); the sequence of
+pivot searches and elimination rounds is that of the former `while t < m && t < n` loop. -/
+def denseDiag (a0 : Array (Array Int)) : Array Int :=
+  let m := a0.size
+  if m == 0 then #[]
+  else
+    let n := a0[0]!.size
+    denseLoop (min m n + 1) a0 0 m n #[]
 
 /-- turn a list of positive integers into the divisibility chain with the same product structure -/
 def chain (d0 : Array Int) : Array Int := Id.run do
@@ -362,46 +396,60 @@ def chain (d0 : Array Int) : Array Int := Id.run do
         d := (d.set! i g).set! j (x * y / g)
   return d
 
-/-- Smith invariants of a sparse integer matrix (rows given): (rank, invariant factors ≠ 1 in chain form). -/
-partial def smithInvariants (rows0 : Array Row) : Nat × Array Int := Id.run do
-  let mut rows := rows0.filter (fun r => r.size > 0)
-  let mut units := 0
-  let mut go := true
-  while go do
-    -- a row with a ±1 entry, preferring short rows
-    let mut best : Option (Nat × Nat × Nat × Int) := none    -- (len, row, col, value)
-    for i in [0:rows.size] do
-      let r := rows[i]!
-      let better : Bool := match best with
-        | some (len, _, _, _) => decide (r.size < len)
-        | none => true
-      if better then
-        match r.find? (fun (_, v) => v == 1 || v == -1) with
-        | some (c, v) => best := some (r.size, i, c, v)
-        | none => pure ()
-    match best with
-    | none => go := false
-    | some (_, i, j, u) =>
-      let ri := rows[i]!
-      let mut next : Array Row := Array.mkEmpty rows.size
-      for k in [0:rows.size] do
-        if k != i then
-          let rk := rows[k]!
-          let a := rowGet rk j
-          let rk' := if a == 0 then rk else rowAxpy rk (-(a * u)) ri
-          if rk'.size > 0 then next := next.push rk'
-      rows := next
-      units := units + 1
-  if rows.size == 0 then return (units, #[])
-  -- dense remainder
-  let mut cols : Array Nat := #[]
-  for r in rows do
-    for (c, _) in r do
-      if !cols.contains c then cols := cols.push c
-  let cols' := cols.qsort (· < ·)
-  let dense := rows.map (fun r => cols'.map (fun c => rowGet r c))
-  let dg := chain (denseDiag dense)
-  return (units + dg.size, dg.filter (fun x => x != 1))
+/-- one round of the unit-pivot elimination of `smithInvariants`: pick a row with a ±1 entry (preferring short rows),
+clear its column in all other rows, drop the row and all rows that became empty; `none` if no row has a ±1 entry -/
+def unitStep (rows : Array Row) : Option (Array Row) := Id.run do
+  -- a row with a ±1 entry, preferring short rows
+  let mut best : Option (Nat × Nat × Nat × Int) := none    -- (len, row, col, value)
+  for i in [0:rows.size] do
+    let r := rows[i]!
+    let better : Bool := match best with
+      | some (len, _, _, _) => decide (r.size < len)
+      | none => true
+    if better then
+      match r.find? (fun (_, v) => v == 1 || v == -1) with
+      | some (c, v) => best := some (r.size, i, c, v)
+      | none => pure ()
+  match best with
+  | none => return none
+  | some (_, i, j, u) =>
+    let ri := rows[i]!
+    let mut next : Array Row := Array.mkEmpty rows.size
+    for k in [0:rows.size] do
+      if k != i then
+        let rk := rows[k]!
+        let a := rowGet rk j
+        let rk' := if a == 0 then rk else rowAxpy rk (-(a * u)) ri
+        if rk'.size > 0 then next := next.push rk'
+    return some next
+
+/-- the unit-pivot phase: rounds of `unitStep` until none applies; every round removes a row, so `fuel = rows.size`
+rounds suffice. Returns the remaining rows and the number of rounds. -/
+def unitLoop : Nat → Array Row → Nat → Array Row × Nat
+  | 0, rows, units => (rows, units)
+  | fuel + 1, rows, units =>
+    match unitStep rows with
+    | none => (rows, units)
+    | some next => unitLoop fuel next (units + 1)
+
+/-- Smith invariants of a sparse integer matrix (rows given): (rank, invariant factors ≠ 1 in chain form).
+TOTAL: the former `while go` loop is `unitLoop` (structural recursion on fuel `rows.size + 1`). -/
+def smithInvariants (rows0 : Array Row) : Nat × Array Int :=
+  let rows00 := rows0.filter (fun r => r.size > 0)
+  let ru := unitLoop (rows00.size + 1) rows00 0
+  let rows := ru.1
+  let units := ru.2
+  if rows.size == 0 then (units, #[])
+  else Id.run do
+    -- dense remainder
+    let mut cols : Array Nat := #[]
+    for r in rows do
+      for (c, _) in r do
+        if !cols.contains c then cols := cols.push c
+    let cols' := cols.qsort (· < ·)
+    let dense := rows.map (fun r => cols'.map (fun c => rowGet r c))
+    let dg := chain (denseDiag dense)
+    return (units + dg.size, dg.filter (fun x => x != 1))
 
 /-! ### homology tables -/
 
